@@ -9,6 +9,8 @@ def registry():
     reg = {
         "C01": checks_codec.check_C01,
         "C02": checks_codec.check_C02,
+        "C03": checks_codec.check_C03,
+        "C05": checks_codec.check_C05,
     }
     return reg
 
